@@ -47,6 +47,7 @@ func runC12(p *Plan) {
 				}
 				OpCopy(p.Out, e, vc.v, fl)
 			}
+			OpDeqFormsNaN(p.Out, e, vc.v)
 			OpDeq(p.Out, e, vc.v, b, FormForeign, FormPtr, false, nil)
 			OpDeq(p.Out, e, vc.v, b, FormPtr, FormForeign, false, nil)
 			OpDeq(p.Out, e, vc.v, b, FormPtr, FormNil, false, nil)
@@ -175,6 +176,25 @@ func runC02(p *Plan) {
 			OpCopyTo(p.Out, e, vc.v, other, pickForm(tr), fd, bufClasses[tr.Intn(4)])
 			OpReset(p.Out, e, vc.v, pickForm(tr))
 			p.Out.Count("value:" + vc.prof)
+		}
+	}
+	// ReflectInspector over the declared shapes that have no generated inspector (named scalars, named / byte map
+	// keys, … — it needs no generated code)
+	for _, e := range p.ReflectOnly {
+		tr := r.Fork(hashStr(e.Name) ^ 0x5eed)
+		for _, vc := range valuesFor(p, e, tr, 1) {
+			ps := EnumPaths(tr, vc.v, scale(p.Tier, 10, 40))
+			for _, base := range ps.Paths {
+				path := base
+				if tr.Chance(1, 3) {
+					path = junkPath(tr, base)
+				}
+				rf := []Form{FormVal, FormPtr, FormPtrPtr, FormNilP}[tr.Intn(4)]
+				if rf != FormNilP || len(path) > 0 {
+					OpReflectGet(p.Out, e, vc.v, rf, path)
+					p.Out.Count("reflect-only:" + e.Fam)
+				}
+			}
 		}
 	}
 	// C02 speaks about the built-in inspectors and Assign/AssignBuf as well: the same records their own
